@@ -309,7 +309,7 @@ PROPS = {
     "C18": {
         "pf": True,
         "n": {"quick": 250, "thorough": 6000},
-        "cone": ["Bytes", "Regex", "Generated", "Channel", "ChanTrace", "ChanTraceLemmas", "Replay", "DecideLang", "GeneratedSkel", "Decide"],
+        "cone": ["Bytes", "Regex", "Generated", "Channel", "ChanTrace", "ChanTraceLemmas", "Replay", "DecideLang", "GeneratedSkel", "Decide", "DecideLoops", "CallbackSrc"],
         "rx": True,
         "rule": "generic.Driver.SendWithCallbacks over the simulated transport and a scripted dialogue device: callback lists (contains / not-contains / "
                 "regex / case sensitivity / once / complete / next-timeout / answers written by the callback), dialogues whose texts make several triggers "
